@@ -13,7 +13,7 @@ func genFmtCase(rt *rapid.T, fc *fmtConfig, vc *valConfig, routes []string, chao
 		c.Raw = fc.genChaoticFormat(rt)
 		n := rapid.IntRange(0, 4).Draw(rt, "nargs")
 		for i := 0; i < n; i++ {
-			if rapid.IntRange(0, 3).Draw(rt, "argint") == 0 {
+			if rapid.IntRange(0, 2).Draw(rt, "argint") == 0 {
 				c.Args = append(c.Args, &Val{K: "int", I: int64(rapid.IntRange(-3, 12).Draw(rt, "ai"))})
 			} else {
 				c.Args = append(c.Args, vc.genVal(rt, 0, false))
